@@ -68,15 +68,17 @@ func VH_C05_DuringPush() {
 	}
 	// the same config and layer may already be stored, unreferenced, from a push abandoned
 	// longer ago than any grace period (no collection has run since)
-	if vh.Bool("staleCopies") {
+	stale := vh.Bool("staleCopies")
+	if stale {
 		vhPushBlob(s, "a", confB)
 		vhPushBlob(s, "a", layerB)
 		vclock.Advance(time.Duration(1 << 47))
 		vh.Tag("staleCopies", "true")
 	}
-	// upload protocol of the two blobs: monolithic POST, or session POST + PUT
+	// upload protocol of the two blobs: monolithic POST, or session POST + PUT (quick
+	// tier: the session protocol only together with stale copies)
 	push := vhPushBlob
-	if vh.Bool("sessionUpload") {
+	if (stale || vh.Param("SESSIONALWAYS", 0) == 1) && vh.Bool("sessionUpload") {
 		push = func(s *Server, repo string, content []byte) (digest.Digest, int) {
 			d := digest.Canonical.FromBytes(content)
 			id := vhSessionID(vhDo(s, "POST", "/v2/"+repo+"/blobs/uploads/", nil, nil, nil))
